@@ -15,7 +15,6 @@ expected value or a verdict: TV_Style.tla does.
 import copy
 import itertools
 import json
-import os
 
 from ..common import MachineryError, import_magpylib, rng
 
@@ -139,7 +138,8 @@ def flat(mp, prefix="", out=None):
     t = type(mp)
     props = _PROPS.get(t)
     if props is None:
-        props = _PROPS[t] = [a for a in dir(t) if isinstance(getattr(t, a, None), property)]
+        # the keys as_dict reports for this class (once per class), read through the properties afterwards
+        props = _PROPS[t] = list(mp.as_dict().keys())
     for k in props:
         v = getattr(mp, k)
         if hasattr(v, "as_dict"):
@@ -147,6 +147,13 @@ def flat(mp, prefix="", out=None):
         else:
             out[prefix + k] = v
     return out
+
+
+def alias_path(path):
+    names = [a for a, t in ALIAS.items() if t == ".".join(path)]
+    if not names:
+        raise MachineryError(f"leaf {path} has no alias name")
+    return names[0].split(".")
 
 
 def strip_alias(d, prefix):
@@ -356,6 +363,8 @@ class Case:
     # ---- notations
     def set_obj(self, tgt, n, path, V, lazy=False):
         env = self.env
+        if n.startswith("alias_"):        # the same leaf under its deprecated second name
+            n, path = n[6:], alias_path(path)
         if n.startswith("ctor"):
             kw = {"ctor_us": {"style_" + us(path): V}, "ctor_dict": {"style": nested(path, V)}, "ctor_flat": {"style": {us(path): V}}}[n]
             self.obj[tgt] = env.make(self.clsof[tgt], **kw)
@@ -389,6 +398,8 @@ class Case:
 
     def set_def(self, f, n, path, V):
         D = self.env.D
+        if n.startswith("def_alias_"):
+            n, path = "def_" + n[10:], alias_path(path)
         q = [f] + path
         if n == "def_attr":
             setattr(walk(D.display.style, q[:-1]), q[-1], V)
@@ -482,27 +493,30 @@ class Case:
         except Exception as ex:  # pylint: disable=broad-except
             outcome, exc = "raise", type(ex).__name__
         post = self.project()
+        reserr = ""
         if op != "Show" and d.get("res"):
             try:
                 res = self.resolve(d["res"], {}, "direct")
+            except MachineryError:
+                raise
             except Exception as ex:  # pylint: disable=broad-except
-                raise MachineryError(f"resolution without keywords failed after {d}: {type(ex).__name__}: {ex}") from ex
+                res, reserr = {}, type(ex).__name__     # the display code could not resolve a style in this state
         vabs = v
         if l == "m" and v not in (NONE, BAD):
             vabs = self.vid(self.MT["v1"])
         ev = {"tid": self.tid, "op": op, "tgt": tgt, "src": d.get("src", ""), "l": l if op in ("SetObj", "SetDef") else "",
               "v": vabs, "kw": kwabs, "badname": bool(d.get("badname", False)), "notation": n or op.lower(), "via": d.get("via", ""),
-              "outcome": outcome, "exc": exc, "post": post, "res": res}
+              "outcome": outcome, "exc": exc, "post": post, "res": res, "reserr": reserr}
         self.tid += 1
         self.steps.append(ev)
         self.descr.append(d)
         return ev
 
-    def finish(self, case_id):
+    def finish(self, case_id, checkfresh=False):
         carries = "label" not in (self.leaf, self.mleaf)    # copy() documents that it renames the label of the copy
         self.env.restore_defaults()
         return {"case": case_id, "label": self.label, "cls": self.cls, "leaf": self.leaf.replace(".", "_"), "leaf_dotted": self.leaf, "mleaf": self.mleaf.replace(".", "_"),
-                "carries": carries, "clsof": self.clsof, "has": self.has, "fhas": self.fhas, "def0": self.def0,
+                "carries": carries, "checkfresh": bool(checkfresh), "clsof": self.clsof, "has": self.has, "fhas": self.fhas, "def0": self.def0,
                 "init": self.init, "steps": self.steps, "descr": self.descr}
 
 
@@ -553,30 +567,40 @@ def sequences(cls, leaf, tier_, idx=0):
     thorough = tier_ == "thorough"
     ctor, mut = obj_notations(path)
     defn = def_notations(path)
+    mut_all, defn_all = mut, defn            # notations usable with valid values (incl. the alias name of the leaf, if any)
+    ctor_plain = ctor
+    if leaf in ALIAS.values():
+        ctor = ctor + ["alias_ctor_us"]
+        mut_all = mut + ["alias_attr", "alias_update_us", "alias_update_lvl1"]
+        defn_all = defn + ["def_alias_attr", "def_alias_update_style"]
     fams = [f for f in reversed(CLASS_FAMILIES[cls]) if leaf in cat["fam"][f]] + (["base"] if leaf in cat["fam"]["base"] else [])
     none_ok = T["none_ok"]
     has_obj = cls != "Markers"
     shown = SHOWN if len(path) > 1 else SHOWN[:2]
+    # quick: the leaves of BaseStyle are the same code in every style class; their full notation sweep runs on Cuboid (and Markers),
+    # the other classes run a reduced one (every single notation, every notation after a plain assignment)
+    primary = thorough or cls in ("Cuboid", "Markers") or leaf not in cat["fam"]["base"]
     out = []
     if has_obj:
         # 1. every single notation (from the fresh object), resolved style observed
-        for n in ctor + mut:
+        for n in ctor + mut_all:
             out.append((f"single:{n}", [S("o", "v1", n, res=["o"])]))
         # 2. last assignment wins: ordered pairs of notations
-        rep = ["ctor_dict", "attr", "update_us"]
-        for n1 in ctor + mut:
-            for n2 in mut:
-                if thorough or n1 in rep or n2 == "update_us":
+        rep = ["ctor_dict", "attr"] if primary else ["attr"]
+        for n1 in ctor + mut_all:
+            for n2 in mut_all:
+                if thorough or n1 in rep or n1.startswith("alias") or n2.startswith("alias") or (primary and n2 == "update_us"):
                     out.append((f"pair:{n1}>{n2}", [S("o", "v1", n1), S("o", "v2", n2, res=["o"])]))
         # 3. giving None removes the object's own value again
         if none_ok:
-            for n2 in mut:
+            for n2 in (mut if primary else ["attr", "update_us", "assign_dict"]):
                 out.append((f"unset:{n2}", [S("o", "v1", "attr"), S("o", NONE, n2, res=["o"])]))
         if thorough:
             for n1, n2, n3 in itertools.product(["attr", "update_us", "assign_dict", "update_lvl1" if len(path) > 1 else "update_dict"], mut, ["attr", "update_us"]):
                 out.append((f"triple:{n1}>{n2}>{n3}", [S("o", "v1", n1), S("o", "v2", n2), S("o", "v1", n3, res=["o"])]))
     # 4. defaults: an object whose own leaf is unset follows them, one whose leaf is set does not; last default wins
     pre = [S("o", NONE, "attr")] if (has_obj and none_ok) else []
+
     def full_def(f):
         # the base defaults are one global object whatever the class: their notation sweep runs with two classes, the others read them
         return thorough or f != "base" or cls in ("Cuboid", "Markers")
@@ -591,8 +615,8 @@ def sequences(cls, leaf, tier_, idx=0):
             seq.append(DF(f, NONE if none_ok else "v2", dn, res=["o", "w"]))
             seq.append(R(res=["w"]))
             out.append((f"track:{f}:{dn}", seq))
-        for dn1 in (defn if thorough else ["def_attr", "def_update_fam"] if (full_def(f) and i == 0) else []):
-            for dn2 in defn:
+        for dn1 in (defn_all if thorough else ["def_attr", "def_update_fam"] if (full_def(f) and i == 0) else []):
+            for dn2 in defn_all:
                 out.append((f"defpair:{f}:{dn1}>{dn2}", [DF(f, "v1", dn1), DF(f, "v2", dn2, res=["w"])]))
     # 5. precedence: walk over all subsets of sources {show keyword, object, family defaults.., base default}
     srcs = (["o"] if (has_obj and none_ok) else []) + (fams if none_ok else [])
@@ -639,22 +663,22 @@ def sequences(cls, leaf, tier_, idx=0):
             out.append(("precedence:kw>obj", [S("o", "v2", "update_us"), SH("v1", "show_us"), SH("v1", "show_dict"), S("w", "v1", "attr"), SH("v2", "show_us")]))
     # 6. copies are independent (also when the style of the original has never been accessed)
     if has_obj:
-        for n in ["attr", "update_us", "assign_dict"] + (["attr_lvl1", "update_lvl1"] if len(path) > 1 else []) + (mut if thorough else []):
+        for n in (mut if thorough else ["attr", "update_us", "assign_dict"] if primary else ["update_us"]):
             out.append((f"copy:c:{n}", [S("o", "v1", "attr"), C(), S("c", "v2", n), S("o", NONE if none_ok else "v2", "attr", res=["o", "c"])]))
             out.append((f"copy:o:{n}", [S("o", "v1", "attr"), C(), S("o", "v2", n), S("c", NONE if none_ok else "v1", "attr", res=["o", "c"])]))
-        for n in ctor:
+        for n in (ctor_plain if primary else ctor_plain[:1]):
             out.append((f"copy:lazy:{n}", [S("o", "v1", n, lazy=True), C(), S("c", "v2", "attr"), S("o", "v2", "update_us"), S("c", "v1", "update_us", res=["o", "c"])]))
         out.append(("copy:defaults", [C(), DF(fams[0], "v1", "def_attr", res=["o", "c"])] if fams else [C(), S("c", "v1", "attr", res=["o", "c"])]))
     # 7. invalid names and values are rejected and change nothing
     if has_obj:
         seq = [S("o", "v1", "attr")]
-        for n in mut:
+        for n in (mut if primary else ["attr", "update_us", "update_dict", "assign_dict"]):
             seq.append(S("o", "v2", n, l="bad"))
             if T["bad"] is not None:
                 seq.append(S("o", BAD, n))
         seq.append(S("o", "v2", "attr", res=["o"]))
         out.append(("invalid:obj", seq))
-        for n in ctor:
+        for n in ctor_plain:
             out.append((f"invalid:name:{n}", [S("o", "v1", n, l="bad")]))
             if T["bad"] is not None:
                 out.append((f"invalid:value:{n}", [S("o", BAD, n)]))
@@ -715,7 +739,6 @@ def run_shared_dict(case):
     env = case.env
     d = nested(case.mpath, case.MT["v1"])
     # step 1: SetObj(o, l, v1) in the notation 'style dictionary plus underscore keyword' (o's m already holds that value)
-    case.steps_extra = []
     outcome, exc = "ok", ""
     try:
         case.obj["o"] = env.make(case.cls, style=d, **{"style_" + us(case.path): case.T["v1"]})
@@ -723,9 +746,8 @@ def run_shared_dict(case):
     except Exception as ex:  # pylint: disable=broad-except
         outcome, exc = "raise", type(ex).__name__
     post = case.project()
-    res = case.resolve(["o"], {}, "direct") if outcome == "ok" else {}
     case.steps.append({"tid": case.tid, "op": "SetObj", "tgt": "o", "src": "", "l": "l", "v": "v1", "kw": {"l": NONE, "m": NONE}, "badname": False,
-                       "notation": "ctor_mixed", "via": "", "outcome": outcome, "exc": exc, "post": post, "res": res})
+                       "notation": "ctor_mixed", "via": "", "outcome": outcome, "exc": exc, "post": post, "res": {}, "reserr": ""})
     case.tid += 1
     # step 2: SetObj(w, m, M1) by constructing w from the same dictionary object
     outcome, exc = "ok", ""
@@ -735,22 +757,21 @@ def run_shared_dict(case):
     except Exception as ex:  # pylint: disable=broad-except
         outcome, exc = "raise", type(ex).__name__
     post = case.project()
-    res = case.resolve(["w"], {}, "direct") if outcome == "ok" else {}
     case.steps.append({"tid": case.tid, "op": "SetObj", "tgt": "w", "src": "", "l": "m", "v": case.vid(case.MT["v1"]), "kw": {"l": NONE, "m": NONE},
-                       "badname": False, "notation": "ctor_shared_dict", "via": "", "outcome": outcome, "exc": exc, "post": post, "res": res})
+                       "badname": False, "notation": "ctor_shared_dict", "via": "", "outcome": outcome, "exc": exc, "post": post, "res": {}, "reserr": ""})
     case.tid += 1
     case.descr.append({"op": "SharedDict"})
 
 
-def run_sequence(cls, leaf, label, seq, tid0, case_id):
+def run_sequence(cls, leaf, label, seq, tid0, case_id, checkfresh=False):
     # a constructor notation creates the object o: then o cannot carry a sibling value from before
-    case = Case(cls, leaf, tid0, label, preset_m=not (seq and str(seq[0].get("n", "")).startswith("ctor")))
+    case = Case(cls, leaf, tid0, label, preset_m=not (seq and "ctor" in str(seq[0].get("n", ""))))
     for d in seq:
         if d["op"] == "SharedDict":
             run_shared_dict(case)
         else:
             case.step(d)
-    return case.finish(case_id)
+    return case.finish(case_id, checkfresh)
 
 
 def tasks(env=None):
@@ -775,7 +796,7 @@ def run_task(args):
     tid0 = idx * TID_STRIDE
     with open(path, "w") as f:
         for ci, (label, seq) in enumerate(seqs):
-            ev = run_sequence(cls, leaf, label, seq, tid0, idx * 10000 + ci)
+            ev = run_sequence(cls, leaf, label, seq, tid0, idx * 10000 + ci, checkfresh=(ci == 0))
             tid0 += len(ev["steps"])
             if tid0 >= (idx + 1) * TID_STRIDE:
                 raise MachineryError("tid range exhausted")
